@@ -12,7 +12,8 @@
    Statements (assignment, if/while/for/switch, calls, locals), pointers, structs, arrays, the
    sized integer types, floats and strings have NO theorem: differential execution only
    (tools/props/c37.py). *)
-From PV Require Import Lib.Py Spec.IRSyntax Spec.IRSem Spec.C3Spec Model.C3Lower Proofs.C37_c3.
+From PV Require Import Lib.Py Spec.IRSyntax Spec.IRSem Spec.C3Spec Model.C3Lower Proofs.C37_c3
+  Spec.C3StmtSpec Model.StmtCode Model.C3Stmt Proofs.C37_stmt.
 Open Scope Z_scope.
 
 (* the IR the front-end emits for a well-typed expression evaluates to the prescribed value,
@@ -65,6 +66,47 @@ Theorem c37_coercion_bool_rejected : forall w t, t <> CBool ->
   do_coerce w CBool t = None /\ do_coerce w t CBool = None.
 Proof. exact coerce_bool_none. Qed.
 Print Assumptions c37_coercion_bool_rejected.
+
+(* ---- statements over int/byte/bool locals: assignment (with the implicit conversion),
+   compound, if/else, while, for(init; cond; step), switch, return.  [compile] (Model/C3Stmt.v)
+   models gen_stmt's CFG construction; the CFG is represented unfolded along its forward edges
+   (Model/StmtCode.v), executed by [cruns] with IRSem's arithmetic through eval_l -- NOT with
+   IRSem.run_function on numbered blocks and byte memory (that step is validated by structural
+   comparison with the decompiled c3_to_ir output and by differential execution).
+   [cexec] = big-step C3 semantics (Spec/C3StmtSpec.v, relational). ---- *)
+Theorem c37_stmt_exact : forall w rt, wok w -> forall s env out, cexec w rt s env out ->
+  forall d k c ls rg v, compile w rt d s k = Some c -> length ls = d -> top_ok d k ->
+  match out with
+  | ONormal env' => forall rg', agree_below (2 * d) rg' rg -> cruns w ls env' rg' k v
+  | OReturn x => v = x
+  end -> cruns w ls env rg c v.
+Proof. exact stmt_sim. Qed.
+Print Assumptions c37_stmt_exact.
+
+Theorem c37_body_exact : forall w rt body env v c rg, wok w ->
+  cexec w rt body env (OReturn v) -> compile w rt 0 body KStuck = Some c ->
+  cruns w [] env rg c v.
+Proof. exact body_exact. Qed.
+Print Assumptions c37_body_exact.
+
+(* the chain of CJump(value == Const label) tests gen_switch_stmt emits reaches exactly the code
+   of the statement [select] picks: first matching label in source order, else default *)
+Theorem c37_switch_dispatch : forall w rt d k cases dflt cc ls env rg v x,
+  sw_chain (fun s1 => compile w rt d s1 k) (compile w rt d dflt k) d cases = Some cc ->
+  Forall (fun zs => in_range w CInt (fst zs) = true) cases -> wok w ->
+  rg (sw_reg d) = x ->
+  exists csel, compile w rt d (select x cases dflt) k = Some csel /\
+               (cruns w ls env rg csel v -> cruns w ls env rg cc v).
+Proof. exact switch_dispatch. Qed.
+Print Assumptions c37_switch_dispatch.
+
+(* the statement theorems are not vacuous: from x = 2, y = 5 the body
+   y = 0; while (x > 0) { switch (x) { case 2: y = y + 10; default: y = y + 1; } x = x - 1; } return y;
+   returns 11, and it compiles *)
+Example c37_stmt_nonvacuous :
+  cexec 32 CInt ex37_body [2; 5] (OReturn 11) /\
+  exists c, compile 32 CInt 0 ex37_body KStuck = Some c.
+Proof. split; [exact ex37_run|]. eexists. vm_compute. reflexivity. Qed.
 
 (* hypotheses are inhabited: on a 16-bit target, with a : int = -7, b : byte = 200,
    (a + b) * 300 wraps to -7636; b + b stays a byte (144); a / 2 truncates to -3;
